@@ -5,7 +5,7 @@
 //! transactions relative to the session's critical sections).
 
 use crate::outstation::database::UpdateInfo;
-use crate::verif::models::ledger::{match_events, EvState, Ledger};
+use crate::verif::models::ledger::{match_events_before, EvState, Ledger};
 use crate::verif::nodes::outstation::{Cb, CtrlAnswers};
 use crate::verif::props::c03::gen_event_script;
 use crate::verif::props::gen_out::*;
@@ -309,6 +309,7 @@ impl Oracle for IinOracle {
         let mut live: BTreeSet<u64> = self.ledger.live().map(|e| e.id).collect();
         let mut overflow = self.ledger.overflow;
         let mut snapshot: Option<Snapshot> = None;
+        let mut newest_at_write: Option<Option<u64>> = None;
         let mut discarded_now: Vec<u64> = Vec::new();
         let mut bcast_processed = false;
 
@@ -337,6 +338,10 @@ impl Oracle for IinOracle {
                 Ev::Tl(TL::Lock(site, _)) => {
                     if *site == "get_events_info" {
                         snapshot = Some(Snapshot { live: live.clone(), overflow });
+                    }
+                    if *site == "write_unsolicited" || *site == "write_response_headers" {
+                        // what the next fragment carries was selected here: only events that exist now qualify
+                        newest_at_write = Some(self.ledger.events.keys().next_back().copied());
                     }
                 }
                 Ev::Cb(_, cb) => match cb {
@@ -432,7 +437,7 @@ impl Oracle for IinOracle {
                     };
                     let meas = refapp::measurements(frag);
                     let events: Vec<&refapp::Meas> = meas.iter().filter(|m| m.is_event).collect();
-                    let own_ids = match match_events(&self.ledger, &events, &discarded_now) {
+                    let own_ids = match match_events_before(&self.ledger, &events, &discarded_now, newest_at_write.take().flatten()) {
                         Ok(ids) => ids,
                         Err(_) => {
                             self.desync = true; // C03's business
